@@ -360,3 +360,70 @@ contract(CW + 'WMSClient._query_req', props=['C17'],
          opaque_spec={'copy': {'pure': True}, 'dimensions_for_params': {'pure': True}, 'update': {'pure': True}},
          opaque=['dimensions_for_params'],
          trace=[_query_req_params])
+
+
+# ---- WMSClient.retrieve: exactly one upstream request, built from this query and format, under the configured limit ------------------
+def _one_upstream_request(ex, st, post, result):
+    import z3
+    from pyvc.values import eq, opaque_eq_str, VNone
+    h = st.heap[post.env['self'].ref]
+    op = [(i, e) for i, e in T.evs(st, 'open')]
+    qu = [e for i, e in T.evs(st, '_query_url', 'WMSClient._query_url')]
+    qd = [e for i, e in T.evs(st, '_query_data', 'WMSClient._query_data')]
+    ck = [(i, e) for i, e in T.evs(st, '_check_resp', 'WMSClient._check_resp')]
+    lk = [(i, e) for i, e in T.evs(st, 'lock')]
+    builders = qu + qd
+    ok = len(op) == 1 and len(builders) == 1 and len(ck) == 1 and op[0][0] < ck[0][0] and result is op[0][1].result
+    g = z3.BoolVal(bool(ok))
+    if ok:
+        b = builders[0]
+        a = [x for x in b.args if getattr(x, 'ref', None) != post.env['self'].ref]
+        g = z3.And(g, z3.BoolVal(len(a) == 2 and a[0] is post.env['query'] and a[1] is post.env['format']))
+        o = op[0][1]
+        ca = [x for x in ck[0][1].args if getattr(x, 'ref', None) != post.env['self'].ref]
+        g = z3.And(g, z3.BoolVal('data' in o.kwargs and len(o.args) == 1 and len(ca) == 2 and ca[0] is o.result and ca[1] is o.args[0]))
+        if qu:
+            g = z3.And(g, z3.BoolVal(o.args[0] is qu[0].result and isinstance(o.kwargs.get('data'), VNone)))
+        # the configured method decides: POST sends the parameters as body, GET in the URL
+        post_cfg = opaque_eq_str(h['http_method'].t, z3.StringVal('POST'))
+        get_cfg = opaque_eq_str(h['http_method'].t, z3.StringVal('GET'))
+        g = z3.And(g, z3.Implies(post_cfg, z3.BoolVal(bool(qd))), z3.Implies(z3.And(z3.Not(post_cfg), get_cfg), z3.BoolVal(bool(qu))))
+        # a configured concurrency limit is held around the request
+        limited = ex.truth(st, h['lock'])
+        g = z3.And(g, limited == z3.BoolVal(len(lk) == 1 and lk[0][0] < op[0][0]))
+    yield ('one_request_for_this_query', g,
+           'exactly one http_client.open(url, data=...) per retrieve: URL (GET) or URL + body (POST, as configured) built from THIS '
+           'query and format; inside self.lock() when a concurrency limit is configured; the answer is checked (_check_resp) and '
+           'then returned unchanged')
+
+
+contract(CW + 'WMSClient.retrieve', props=['C17'],
+         types=dict(query='opaque', format='opaque'), returns='opaque', default_callee='opaque',
+         opaque_spec={'open': {'raises': ['HTTPClientError']}, '_query_url': {'pure': True}, '_query_data': {'returns': 'tuple[opaque,opaque]', 'pure': True},
+                      '_check_resp': {'raises': ['SourceError']}, 'lock': {'pure': True}, 'encode': {'pure': True}, 'contains': {'returns': 'bool', 'pure': True}},
+         opaque=['_query_url', '_query_data', '_check_resp'],
+         raises={'HTTPClientError': True, 'SourceError': True},
+         trace=[_one_upstream_request])
+
+
+def _only_images_pass(ex, st, post, result):
+    import z3
+    from pyvc.values import VStr
+    gets = [e for i, e in T.evs(st, 'get') if e.args and isinstance(e.args[0], VStr) and e.args[0].conc() == 'Content-type']
+    sw = [e for i, e in T.evs(st, 'startswith')]
+    ok = len(gets) == 1 and len(sw) >= 1 and sw[0].recv is not None and sw[0].recv.t.eq(gets[0].result.t) and len(sw[0].args) == 1 \
+        and isinstance(sw[0].args[0], VStr) and sw[0].args[0].conc() == 'image/'
+    g = z3.BoolVal(bool(ok))
+    if ok:
+        g = z3.And(g, ex.truth(st, sw[0].result), z3.BoolVal(len(gets[0].args) == 2 and isinstance(gets[0].args[1], VStr) and gets[0].args[1].conc().startswith('image/')))
+    yield ('upstream_answer_accepted_only_as_image', g,
+           "an upstream answer passes only if its Content-type (taken as image/ when missing) starts with 'image/'; anything else - "
+           'an XML service exception, an HTML error page - raises SourceError instead of being handed on as picture data')
+
+
+contract(CW + 'WMSClient._check_resp', props=['C17'],
+         types=dict(resp='opaque', url='opaque'), returns='none', default_callee='opaque',
+         opaque_spec={'get': {'pure': True}, 'startswith': {'returns': 'bool', 'pure': True}, 'read': {'pure': True}, 'decode': {'pure': True},
+                      'format': {'pure': True}},
+         raises={'SourceError': True},
+         trace=[_only_images_pass])
